@@ -6,6 +6,11 @@ miss=0
 for d in seeded/*/; do
   d=${d%/}
   [ -f $d/patch.diff ] || continue
+  if python3 -c "import json,sys;sys.exit(0 if json.load(open('$d/meta.json')).get('obsolete') else 1)" 2>/dev/null; then
+    out=$(python3 tools/run_seeded.py $d 2>&1)
+    if echo "$out" | grep -q '"C[0-9][0-9]"'; then echo "ALARM   $d is marked obsolete (no longer breaks its property) but a check fires: $out"; miss=1; else echo "silent  $d (obsolete: neutralised by a later fix; must not raise an alarm)"; fi
+    continue
+  fi
   out=$(python3 tools/run_seeded.py $d 2>&1)
   props=$(echo "$out" | grep -o '"C[0-9][0-9]"' | tr -d '"' | tr '\n' ' ')
   own=$(python3 -c "import json;print(json.load(open('$d/meta.json'))['property'])" 2>/dev/null)
